@@ -1,0 +1,31 @@
+//go:build verif
+
+// Package verifapi re-exports the CLI entry points of internal/cli for the verification
+// harness in /verif (an external module cannot import internal/...). Compiled only with
+// `-tags verif`; no behaviour of its own.
+package verifapi
+
+import (
+	"context"
+
+	"github.com/google/go-containerregistry/pkg/v1/remote"
+
+	"chainguard.dev/apko/internal/cli"
+	"chainguard.dev/apko/pkg/build"
+	"chainguard.dev/apko/pkg/build/types"
+)
+
+// BuildCmd is cli.BuildCmd.
+func BuildCmd(ctx context.Context, imageRef, output string, archs []types.Architecture, tags []string, wantSBOM bool, sbomPath string, opts ...build.Option) error {
+	return cli.BuildCmd(ctx, imageRef, output, archs, tags, wantSBOM, sbomPath, opts...)
+}
+
+// LockCmd is cli.LockCmd.
+func LockCmd(ctx context.Context, output string, archs []types.Architecture, opts []build.Option) error {
+	return cli.LockCmd(ctx, output, archs, opts)
+}
+
+// PublishCmd is cli.PublishCmd.
+func PublishCmd(ctx context.Context, outputRefs string, archs []types.Architecture, ropt []remote.Option, sbomPath string, buildOpts []build.Option, publishOpts []cli.PublishOption) error {
+	return cli.PublishCmd(ctx, outputRefs, archs, ropt, sbomPath, buildOpts, publishOpts)
+}
